@@ -85,8 +85,11 @@ func GetRepo(path string) (string, error) {
 	// Both quantifiers are lazy: the repository starts after the first
 	// "/repositories/" and ends before the first section directory. Repository
 	// components may be named "repositories" but can never start with "_",
-	// whereas tags may be named "_manifests", "_layers" or "_uploads".
-	re := regexp.MustCompile("^.+?/repositories/(.+?)/(?:_manifests|_layers|_uploads)")
+	// whereas tags may be named "_manifests", "_layers" or "_uploads". For the
+	// same reason the repository must not be empty or start with "_" or "/":
+	// otherwise ".../repositories/_manifests/tags/_uploads/current/link" (no
+	// repository at all) would yield the repository "_manifests/tags".
+	re := regexp.MustCompile("^.+?/repositories/([^_/].*?)/(?:_manifests|_layers|_uploads)")
 	matches := re.FindStringSubmatch(path)
 	if len(matches) < 2 {
 		return "", InvalidRegistryPathError{_repositories, path}
